@@ -4,7 +4,8 @@ LEVEL = 'model_checking'
 CLAIM = ('Real ComputeMerkleRoot / ComputeMerklePath (consensus/merkle.cpp) under a collision-free free-algebra model of SHA256d: root equals the textbook '
          'definition with the duplicate-last rule; the mutated flag is set iff some level pairs two identical nodes; folding the merkle path of any leaf gives the root; '
          'and for any two different leaf lists (lengths up to the bound, leaf identities symbolic) an equal root implies the longer list is flagged (CVE-2012-2459), '
-         'equal-length different lists never share a root. Header/witness-commitment checks (CheckMerkleRoot, CheckWitnessMalleation) see harness block_mutated.')
+         'equal-length different lists never share a root. Harness blockmut decides the real IsBlockMutated (CheckMerkleRoot + 64-byte rule + CheckWitnessMalleation, BlockMerkleRoot, BlockWitnessMerkleRoot, GetWitnessCommitmentIndex) against a BIP141 reference '
+         'on small blocks with symbolic txid/wtxid labels, header root, commitment bytes, reserved value and coinbase-ness. NOT decided: AcceptBlock/ProcessNewBlock histories (mutated variant first, genuine block later), compact-block reconstruction.')
 FN = ['ComputeMerkleRoot', 'MerkleComputation', 'ComputeMerklePath (static, consensus/merkle.cpp included)', 'uint256 comparison', 'std::vector<uint256> growth']
 ST = ['SHA256D64 and CSHA256 replaced by the collision-free label model ref/verif_hash_merkle.h (premise of merkle.cpp: no SHA256d collisions)']
 LINK = ['uint256.cpp', 'hash.cpp', 'primitives/transaction.cpp', 'primitives/block.cpp', 'script/script.cpp']
@@ -15,6 +16,7 @@ def mk(a, b):
     return d
 pairs_q = [mk(a, b) for a in range(1, 7) for b in range(1, a) if a <= 6 and b >= max(1, a - 3)]
 pairs_t = [mk(a, b) for a in range(1, 9) for b in range(0, a + 1)]
+NOLOG = ['_ZN4util3log23LogPrintFormatInternal_[A-Za-z0-9_]*', '_ZN4util6detail24CheckNumFormatSpecifiersILj[0-9]+EEEvPKc']
 HARNESSES = [
     H('root_path', 'merkle.cpp', 'h_root_path', link=LINK, variants=[{'N1': 0}] + [{'N1': n, 'POS': p} for n in (1, 2, 3, 5, 6) for p in sorted(set([0, n // 2, n - 1]))], tvariants=[{'N1': 0}] + [{'N1': n, 'POS': p} for n in range(1, 9) for p in range(n)],
       unwind=34, memunwind=40, timeout=400, objbits=10, functions=FN, stubs=ST,
@@ -22,4 +24,14 @@ HARNESSES = [
     H('two_lists', 'merkle.cpp', 'h_two_lists', link=LINK, variants=pairs_q + [{'N1': 3, 'N2': 3}, {'N1': 4, 'N2': 4}], tvariants=pairs_t,
       unwind=34, memunwind=40, timeout=400, objbits=10, functions=FN[:1], stubs=ST,
       bounds='pairs of lists (N1 >= N2) with N1 <= 6, N1-N2 <= 3 (thorough: all pairs up to 8), identities symbolic over a 4-value domain'),
+    H('blockmut', 'blockmut.cpp', 'h_blockmut', link=['validation.cpp'] + LINK, shadow=['nofmt'], noop=NOLOG, interpose=True, unwind=40, memunwind=48, timeout=600, objbits=11,
+      variants=[{'NTX': 1}, {'NTX': 2}, {'NTX': 2, 'WN': 2, 'ALWAYS': 1}, {'NTX': 1, 'W0LEN': 31, 'ALWAYS': 1}, {'NTX': 2, 'WN': 0, 'TXWIT': 1}, {'NTX': 1, 'NOUT0': 1, 'SPKLEN': 2, 'SS0': 2, 'WN': 0}],
+      tvariants=[{'NTX': 1}, {'NTX': 2}, {'NTX': 3}, {'NTX': 3, 'TXWIT': 1}, {'NTX': 2, 'WN': 2, 'ALWAYS': 1}, {'NTX': 1, 'WN': 2, 'ALWAYS': 1}, {'NTX': 1, 'W0LEN': 31, 'ALWAYS': 1}, {'NTX': 1, 'W0LEN': 33, 'ALWAYS': 1}, {'NTX': 2, 'WN': 0, 'TXWIT': 1}, {'NTX': 2, 'WN': 0},
+                 {'NTX': 1, 'NOUT0': 1, 'SPKLEN': 2, 'SS0': 2, 'WN': 0}, {'NTX': 1, 'NOUT0': 1, 'SPKLEN': 2, 'SS0': 3, 'WN': 0}, {'NTX': 2, 'NOUT0': 3}],
+      functions=['IsBlockMutated', 'CheckMerkleRoot', 'CheckWitnessMalleation (static, validation.cpp)', 'BlockMerkleRoot', 'BlockWitnessMerkleRoot', 'ComputeMerkleRoot (consensus/merkle.cpp)', 'GetWitnessCommitmentIndex (consensus/validation.h)',
+                 'CHash256 (hash.h)', 'CTransaction::HasWitness/IsCoinBase', 'GetSerializeSize(TX_NO_WITNESS(tx))'],
+      stubs=ST + ['CTransaction::ComputeHash / ComputeWitnessHash return harness-chosen symbolic leaf labels (wtxid == txid when the transaction has no witness)', 'logging: debug categories disabled, sink dropped; tinyformat -> empty strings'],
+      assumptions=['coinbase reserved value drawn from the label domain of the witness root level (hash-model requirement)'],
+      bounds='blocks of 1..2 (thorough 3) transactions; vtx[0] with 1..3 outputs of 38 bytes whose commitment header bytes are symbolic over {correct, 0} and commitment bytes fully symbolic; coinbase witness stack of 0/1/2 items, first item 31/32/33 bytes; '
+             'vtx[1] with/without witness; txid/wtxid labels over a 4-value domain; header merkle root 32 symbolic bytes; prevouts symbolic (coinbase or not); check_witness_root symbolic; a 64/65-byte first transaction shape'),
 ]
